@@ -125,6 +125,7 @@ Bound == \A e \in E : Len(st.hnd[e]) <= MaxHandles
 (* Invariants                                                          *)
 (* ------------------------------------------------------------------ *)
 NoViolation == st.viol = {}
+NoKF == st.kf = {}
 
 TypeOK ==
   /\ \A e \in E : \A id \in DOMAIN st.slot[e] :
@@ -143,14 +144,14 @@ InitialCredit ==
 
 (* C07: one request, one stream on each side, correct target *)
 ExactlyOne ==
-  \A e \in E : \A h \in Hs(e) :
+  ~st.confused => \A e \in E : \A h \in Hs(e) :
      LET x == st.hnd[e][h] IN
      x.conn # 0 =>
        /\ Cardinality({g \in Hs(e) : st.hnd[e][g].conn = x.conn}) = 1
        /\ Cardinality(PeerHandles(st, e, h)) <= 1
        /\ x.role = "req" => Cardinality(PeerHandles(st, e, h)) = 1
 TargetCarried ==
-  \A e \in E : \A c \in DOMAIN st.calls[e] :
+  ~st.confused => \A e \in E : \A c \in DOMAIN st.calls[e] :
      LET k == st.calls[e][c] IN
      (k.k = "open" /\ k.resp = "some") =>
         \A p \in PeerHandles(st, e, k.h) :
@@ -164,7 +165,7 @@ BoundedRetry ==
 (* C06: quiescent => no slot is held for a stream whose handle is gone *)
 Quiet == \A e \in E : st.outq[e] = <<>> /\ st.wire[e] = <<>> /\ st.drops[e] = <<>> /\ st.rxblk[e].k = "none"
 Released ==
-  Quiet => \A e \in E : st.task[e].ph = "run" =>
+  (Quiet /\ ~st.confused) => \A e \in E : st.task[e].ph = "run" =>
      \A id \in DOMAIN st.slot[e] :
         LET sl == st.slot[e][id] IN
         /\ sl.k = "Est" => st.hnd[e][sl.h].st # "dropped"
